@@ -145,7 +145,8 @@ def bnd_line(tier, seed):
     fails = Fail()
     n_eval = 0
     distinct = set()
-    sizes = [0, 10, 230, 240, 500, 700] if tier == "quick" else [0, 1, 10, 230, 236, 237, 240, 480, 500, 700, 1500]
+    # 237 and 480 characters of text give bodies of exactly 244 and 488 bytes (full last block)
+    sizes = [0, 10, 237, 240, 480, 700] if tier == "quick" else [0, 1, 10, 230, 236, 237, 238, 240, 480, 481, 500, 700, 724, 1500]
     chunks = [1, 3, 64, 400] if tier == "quick" else [1, 2, 3, 5, 13, 64, 245, 400]
     for direction in ("host->eq", "eq->host"):
         for size in sizes:
